@@ -4,6 +4,7 @@
   positive by `Params.ValidateBasic`) and every operation sequence.
 -/
 import DymVerif.Lemmas.CoreRolesS
+import DymVerif.Lemmas.CorePunish
 namespace DymVerif.C07
 open DymVerif DymVerif.Core DymVerif.Core.Roles
 
@@ -104,7 +105,7 @@ theorem proposer_change_classified (p : Params) (hp : 0 < p.noticePeriod) (ops :
     (∃ m q, o = .update m ∧ m.ra = id ∧ m.last = true ∧ r.proposer = some m.sender ∧
         getSeq (run p ops) m.sender = some q ∧ noticeElapsed q (run p ops).t = true ∧ r'.proposer = r.successor) ∨
     (∃ a k pa pq, o = .kick a ∧ getSeq (run p ops) a = some k ∧ k.bonded = true ∧ k.optedIn = true ∧ k.rollapp = id ∧
-        r.proposer = some pa ∧ a ≠ pa ∧ getSeq (run p ops) pa = some pq ∧ (run p ops).p.kickThr ≤ pq.dishonor ∧
+        r.proposer = some pa ∧ a ≠ pa ∧ getSeq (run p ops) pa = some pq ∧ (run p ops).sqp.kickThr ≤ pq.dishonor ∧
         r'.proposer = choose s' id ∧ r'.proposer.isSome = true) ∨
     (r'.proposer = none ∧
         ((∃ au hh rev pun rw, o = .fraud au id hh rev pun rw) ∨ (∃ au vs, o = .obsolete au vs))) ∨
@@ -275,6 +276,70 @@ theorem successor_fresh (p : Params) (hp : 0 < p.noticePeriod) (ops : List Op) (
     (hq : getSeq (run p ops) a = some q) : q.notice = none :=
   (run_roles p hp ops).core.succFresh r hr a hs q hq
 
+-- ---------------------------------------------------------------- the standalone governance punishment
+
+/-- a `PunishSequencerProposal` that does not come from the governance authority is rejected and
+    changes nothing -/
+theorem punish_requires_authority (s : St) (a : Addr) (rw : Option Addr) :
+    (step s (.punish false a rw)).2 = some .unauthorized ∧ (step s (.punish false a rw)).1 = s := by
+  constructor <;> rfl
+
+/-- **punish_keeps_roles** — an accepted standalone `PunishSequencerProposal` (x/sequencer's legacy gov
+    route → `PunishSequencer`; unlike the punishment inside a fraud proposal there is NO fork) came from
+    the governance authority and changes no role at all, whatever the state: every rollapp record —
+    proposer, successor, revisions, states, liveness clock — is literally unchanged, and so are the
+    notice queue, the hub time and the parameters; the punished sequencer's record keeps its rollapp, its
+    bonded status, its opt-in flag, its notice time and its dishonor, and its bond is exactly 0; every
+    other sequencer record is unchanged.  In particular **a punished proposer stays proposer — with
+    bond 0** (and a punished successor stays successor). -/
+theorem punish_keeps_roles (s s' : St) (au : Bool) (a : Addr) (rw : Option Addr)
+    (h : apply s (.punish au a rw) = .ok s') :
+    au = true ∧ s'.ras = s.ras ∧ s'.nq = s.nq ∧ s'.t = s.t ∧ s'.h = s.h ∧ s'.p = s.p ∧
+    (∃ q, getSeq s a = some q ∧ getSeq s' a = some { q with tokens := 0 }) ∧
+    (∀ b, b ≠ a → getSeq s' b = getSeq s b) := by
+  obtain ⟨hau, hp⟩ := punishProposal_ok (show punishProposal s au a rw = .ok s' from h)
+  obtain ⟨q, _, fr, _⟩ := punish_exact hp
+  exact ⟨hau, fr.ras, fr.nq, fr.t, fr.h, fr.p, punish_record hp, punish_others hp⟩
+
+/-- **trace form**: in every reachable state, after an accepted `PunishSequencerProposal` against the
+    current proposer `a` of a rollapp, `a` is still the proposer of that rollapp (the same record `r`,
+    same successor), still a bonded sequencer of it, and its bond is 0. -/
+theorem punished_proposer_stays_proposer (p : Params) (hp : 0 < p.noticePeriod) (ops : List Op)
+    (au : Bool) (a : Addr) (rw : Option Addr) (r : Rollapp) (hr : r ∈ (run p ops).ras)
+    (hpr : r.proposer = some a) (hacc : (step (run p ops) (.punish au a rw)).2 = none) :
+    r ∈ (run p (ops ++ [.punish au a rw])).ras ∧
+    ∃ q, getSeq (run p (ops ++ [.punish au a rw])) a = some q ∧ q.tokens = 0 ∧ q.bonded = true ∧
+      q.rollapp = r.id := by
+  have hrun : run p (ops ++ [.punish au a rw]) = (step (run p ops) (.punish au a rw)).1 := by
+    unfold run; rw [List.foldl_append]; rfl
+  rw [hrun]
+  unfold step at hacc ⊢
+  cases h : apply (run p ops) (.punish au a rw) with
+  | error e => rw [h] at hacc; cases hacc
+  | ok s' =>
+    simp only
+    obtain ⟨_, hras, _, _, _, _, ⟨q, hq, hq'⟩, _⟩ := punish_keeps_roles _ _ au a rw h
+    obtain ⟨q0, hq0, hb, hro⟩ := (run_roles p hp ops).core.prop r hr a hpr
+    rw [hq] at hq0; injection hq0 with hq0; subst hq0
+    exact ⟨by rw [hras]; exact hr, _, hq', rfl, hb, hro⟩
+
+-- ---------------------------------------------------------------- x/sequencer parameters as state
+
+/-- **seq_params_change_only_by_authority** — an accepted x/sequencer `MsgUpdateParams` came from the
+    governance authority, carries a positive notice period and a non-zero kick threshold, and replaces the
+    stored x/sequencer parameter set and nothing else (records keep the notice times they were given, no
+    role, bond or queue changes). -/
+theorem seq_params_change_only_by_authority (s s' : St) (au : Bool) (sp : SeqParams)
+    (h : apply s (.setSeqParams au sp) = .ok s') :
+    au = true ∧ 0 < sp.noticePeriod ∧ 0 < sp.kickThr ∧ s' = { s with sqp := sp } :=
+  setSeqParams_ok (show setSeqParams s au sp = .ok s' from h)
+
+/-- **the notice period in force is positive in every reachable state**, whatever parameter updates the
+    history contains (the initial set is validated, every update is) — the hypothesis the roles invariant
+    needs of `unbond` (`run_roles` is proved with the parameters as state). -/
+theorem notice_period_in_force_positive (p : Params) (hp : 0 < p.noticePeriod) (ops : List Op) :
+    0 < (run p ops).sqp.noticePeriod := (run_roles p hp ops).core.np
+
 -- ---------------------------------------------------------------- non-vacuity and the role of the parameter validation
 
 def exParams : Params where
@@ -321,6 +386,16 @@ example : (let s := run { exParams with kickThr := 0 } exKick
     (s.ras.map fun r => (r.proposer, r.successor), s.seqs.map fun q => (q.addr, q.bonded, q.optedIn))) =
     ([(some 2, none)], [(1, false, false), (2, true, true), (3, true, false)]) := by decide
 
+/-- a `PunishSequencerProposal` against the proposer 1 (bond 10, rewardee 7): 1 stays proposer with bond 0,
+    still bonded and opted in; half went to the rewardee, half was burned; without the authority nothing happens -/
+def exPunished : St := run exParams (exKick.dropLast ++ [.punish true 1 (some 7)])
+example : (exPunished.ras.map fun r => (r.proposer, r.successor)) = [(some 1, none)] ∧
+    (exPunished.seqs.map fun q => (q.addr, q.bonded, q.optedIn, q.tokens)) =
+      [(1, true, true, 0), (2, true, true, 10), (3, true, true, 30)] ∧
+    getBal exPunished.bal 7 = 5 ∧ exPunished.burned = 5 ∧ exPunished.modBal = 40 := by decide
+example : (step (run exParams exKick.dropLast) (.punish false 1 (some 7))).2 = some .unauthorized ∧
+    (step (run exParams exKick.dropLast) (.punish true 5 none)).2 = some .unknownSeq := by decide
+
 /-- The hypothesis `0 < noticePeriod` (enforced by the parameter validation of the real module) is
     needed: with a zero notice period the proposer's notice is elapsed the moment it is served, its
     last update forks the rollapp before any successor was chosen, its notice-queue entry survives,
@@ -333,5 +408,15 @@ def np0Ops : List Op := [.createRollapp 0 9 10, .fund 1 100, .fund 2 100, .creat
   .optIn 2 true, .begin_ 1]
 theorem roles_np0_counterexample :
     ((run np0Params np0Ops).ras.map fun r => (r.proposer, r.successor)) = [(some 2, some 2)] := by decide
+
+/-- a proposer that serves notice gets the notice period IN FORCE at that moment: a later parameter
+    update does not move a notice that has started -/
+def exParamUpd : St := run exParams (exRotation.dropLast.dropLast ++
+      [.setSeqParams true { exParams.seq with noticePeriod := 3 }, .unbond 1, .setSeqParams true { exParams.seq with noticePeriod := 100 }])
+example : (getSeq exParamUpd 1).map (·.notice) = some (some 3) ∧ exParamUpd.sqp.noticePeriod = 100 ∧ exParamUpd.nq = [(3, 1)] := by decide
+example : (step (run exParams []) (.setSeqParams false exParams.seq)).2 = some .unauthorized ∧
+    (step (run exParams []) (.setSeqParams true { exParams.seq with noticePeriod := 0 })).2 = some .invalid ∧
+    (step (run exParams []) (.setSeqParams true { exParams.seq with kickThr := 0 })).2 = some .invalid ∧
+    (step (run exParams []) (.setSeqParams true { exParams.seq with lsMul := ⟨1000000000000000001⟩ })).2 = some .invalid := by decide
 
 end DymVerif.C07
